@@ -9,6 +9,7 @@ CONSTANTS
   ResultFirst = TRUE
   OwnCaseNumber = TRUE
   ParserStripsParens = FALSE
+  Transient = FALSE
   CrashInHeader = FALSE
 INVARIANT TypeOK
 INVARIANT C18_RestartCompletes
